@@ -13,7 +13,9 @@ run_demo() {
   if [ -f "$SD/demo.sh" ]; then sh "$SD/demo.sh" >> "$log" 2>&1
   else
     extra=""; [ -f "$SD/T.c" ] && extra="$SD/T.c"
-    gcc -w -I skeletons -I . -I "$SD" -o "$OUT/demo.$1" "$SD/demo.c" $extra $(ls skeletons/*.c | grep -v converter-example) -lm >> "$log" 2>&1 && "$OUT/demo.$1" >> "$log" 2>&1
+    inc=""; [ -d "$SD/gen" ] && { inc="-I $SD/gen"; grep -q '#include "gen/.*\.c"' "$SD/demo.c" || extra="$extra $(ls $SD/gen/*.c 2>/dev/null | tr '\n' ' ')"; }
+    wrap=$(grep -o -- '-Wl,--wrap=[^ ]*' "$SD/run.txt" 2>/dev/null | head -1)     # demos that interpose the allocator say so in run.txt
+    gcc -w $inc -I skeletons -I . -I "$SD" -o "$OUT/demo.$1" "$SD/demo.c" $extra $(ls skeletons/*.c | grep -v converter-example) -lm $wrap >> "$log" 2>&1 && "$OUT/demo.$1" >> "$log" 2>&1
   fi
 }
 echo "== demo on HEAD" >> "$log"; run_demo orig; R0=$?
